@@ -121,6 +121,7 @@ class Program:
         self.alpha_renames = []
         self._alpha_ref = None
         self._known_functions = None
+        self._known_constants = None
         if alpha:
             from . import alpha as _alpha
             verif = os.path.dirname(os.path.dirname(os.path.abspath(__file__)))
@@ -129,7 +130,10 @@ class Program:
             if os.path.exists(kp):
                 import json as _json
                 with open(kp, encoding='utf-8') as fh:
-                    self._known_functions = set(_json.load(fh)['functions'])
+                    d_ = _json.load(fh)
+                self._known_functions = set(d_['functions'])
+                self._known_constants = {m: set(v) for m, v in d_.get('constants', {}).items()} \
+                    if 'constants' in d_ else None
         self.modules = {}
         self.classes = {}
         self.functions = {}
@@ -185,7 +189,15 @@ class Program:
             _alpha.normalise_negated_tests(tree)
             _alpha.normalise_conditional_assignments(tree)
         self.inlined = []
+        self.renamed = []
+        self.folded_constants = []
         if self._known_functions is not None:
+            self.renamed = _inline.undo_renames(trees, self._known_functions)
+            if self._known_constants is not None:
+                self.folded_constants = _inline.fold_new_constants(trees, self._known_constants)
+                if self.folded_constants:
+                    for tree in trees.values():
+                        _nf.normalise(tree)
             self.inlined = _inline.inline_new_helpers(trees, self._known_functions)
             if self.inlined:
                 # the spliced code may again contain the normalisable spellings
